@@ -8,6 +8,7 @@ import (
 
 	"github.com/go-toolsmith/astcopy"
 	"github.com/go-toolsmith/astequal"
+	"golang.org/x/tools/go/ast/astutil"
 )
 
 func init() {
@@ -78,7 +79,8 @@ func (c *typeUnparenChecker) removeRedundantParens(e ast.Expr) ast.Expr {
 		e.Value = c.removeRedundantParens(e.Value)
 	case *ast.ChanType:
 		if valueWithParens, ok := e.Value.(*ast.ParenExpr); ok {
-			if nestedChan, ok := valueWithParens.X.(*ast.ChanType); ok {
+			// One pair of parenthesis stays, however many there are.
+			if nestedChan, ok := astutil.Unparen(valueWithParens).(*ast.ChanType); ok {
 				const anyDir = ast.SEND | ast.RECV
 				if nestedChan.Dir != anyDir || e.Dir != anyDir {
 					valueWithParens.X = c.removeRedundantParens(valueWithParens.X)
